@@ -147,13 +147,15 @@ def gen_body(cs, q, raw, is_bytes, restrict, fmode=False):
     return out
 
 
-def gen_plain_literal(cs, kind, restrict):
+def gen_plain_literal(cs, kind, restrict, gen=None):
     """kind: 'str' | 'bytes'"""
     q = cs.pick(quote_styles(restrict))
     if kind == 'bytes':
         prefix = cs.pick(PREFIXES_BYTES)
     else:
         prefix = cs.pick(PREFIXES_STR)
+        if prefix == 'U' and gen is not None and gen.excluded('C01-F24'):
+            prefix = 'u'
     raw = 'r' in prefix.lower()
     body = gen_body(cs, q, raw, kind == 'bytes', restrict)
     if kind == 'bytes':
@@ -265,13 +267,13 @@ def gen_string_concat(cs, gen, force_f=False, no_f=False):
     toks = []
     for i in range(n):
         if is_bytes:
-            lit = gen_plain_literal(cs, 'bytes', restrict)
+            lit = gen_plain_literal(cs, 'bytes', restrict, gen)
             gen.feat('bytes_literal')
         elif (force_f and i == 0 or cs.bool(50)) and gen.fstrings and not no_f and restrict is None:
             lit = gen_fstring_literal(cs, gen, restrict)
             gen.feat('fstring')
         else:
-            lit = gen_plain_literal(cs, 'str', restrict)
+            lit = gen_plain_literal(cs, 'str', restrict, gen)
         toks.append(T(lit, 'str'))
     if n > 1:
         gen.feat('str_concat')
